@@ -71,7 +71,7 @@ var connectTimeoutRE = regexp.MustCompile(`^[0-9]{1,10}$`)
 var grpcTimeoutRE = regexp.MustCompile(`^[0-9]{1,8}[HMSmun]$`)
 
 func c10(run *ev.Run) int {
-	run.SetRule("(a) client encoding: durations at every unit x digit-count boundary, around the Connect 10-digit and int64 limits, and seeded log-uniform random ones x 3 protocols x kinds; header recorded at HTTPClient.Do, bounds from the interval measured around the call; (b) handler parsing: grammatical strings for every unit x 1..8 digits, dense random 8-digit hour values (runtime overflow region), near-grammatical and random strings, ctx.Deadline() recorded in the handler, bounds from the measured interval; (c) end to end through the loopback; (d) in-package sweep of the pinned pure encoder/parser (no clock); distinct by (part, protocol, unit, digit count / string class); also: a client interceptor installing a 7 s context under a caller with 1 h / no deadline (4 kinds)")
+	run.SetRule("(a) client encoding: durations at every unit x digit-count boundary, around the Connect 10-digit and int64 limits, and seeded log-uniform random ones x 3 protocols x kinds; header recorded at HTTPClient.Do, bounds from the interval measured around the call; (b) handler parsing: grammatical strings for every unit x 1..8 digits, dense random 8-digit hour values (runtime overflow region), near-grammatical and random strings, ctx.Deadline() recorded in the handler, bounds from the measured interval; (c) end to end through the loopback; (d) in-package sweep of the pinned pure encoder/parser (no clock); distinct by (part, protocol, unit, digit count / string class); also: a client interceptor installing a 7 s context under a caller with 1 h / no deadline (4 kinds); history: half of the client cases through one long-lived client per protocol")
 	run.Assume("durations under 200 ms are not used for the client-encoding part (the deadline may pass before the request is built); sign prefixes and over-long all-leading-zero strings are don't-care inputs")
 	c10ClientEncoding(run)
 	c10HandlerParsing(run)
